@@ -46,7 +46,7 @@ def execute(cases_, tier, seed):
         if not wc.compiled:
             continue
         feats = {"shape": wc.placed.get("shape"), "ctx": wc.placed.get("ctx"), "id": wc.id,
-                 "shape_kind": (wc.placed.get("shape") or "").split("(")[0]}
+                 "shape_kind": (wc.placed.get("shape") or "").split("(")[0], **(wc.placed.get("tg") or {})}
         nv = ni = 0
         accepted = []
         disagree = []
